@@ -499,6 +499,10 @@ impl RefState {
                 let n = self.push_node(node.t.detached(), vec![], None, None, node.exact, false);
                 self.handles.push(Some(Handle { node: n, tracked: false, keep: false }));
             }
+            Step::RefusedOp { h } => {
+                // refused: no effect (the handle must be alive)
+                let _ = self.handle(*h);
+            }
             Step::ProbeSole { h } => {
                 // the array is rebuilt with a buffer of its own
                 let n = self.handle(*h).node;
